@@ -892,9 +892,14 @@ impl<S: VhostUserBackendReqHandler> BackendReqHandler<S> {
         // If Bit 8 is unset, the data must contain a file descriptor.
         let has_fd = (msg.value & 0x100u64) == 0;
 
+        // Exactly one descriptor is expected if Bit 8 is unset, and none at all if it is set.
+        let nfiles = match &files {
+            Some(files) => files.len(),
+            None => 0,
+        };
         let file = take_single_file(files);
 
-        if has_fd && file.is_none() || !has_fd && file.is_some() {
+        if has_fd && file.is_none() || !has_fd && nfiles != 0 {
             return Err(Error::InvalidMessage);
         }
 
